@@ -74,6 +74,11 @@ def run_one(m, slot):
 
 def main():
     import mutants
+    import importlib
+    for f in sorted(os.listdir(HERE)):
+        if f.startswith("m_") and f.endswith(".py"):
+            mod = importlib.import_module(f[:-3])
+            mutants.ALL.extend(mod.ALL)
     args = sys.argv[1:]
     only = None
     prop = None
